@@ -27,6 +27,13 @@ def make_dir(h, r, name, flavour):
             nm, text = r.choice(c13.BROKEN_FILES)
             with open(os.path.join(d, nm), 'w') as f:
                 f.write(text)
+    if r.random() < 0.4:
+        # part of the input lives in sub-directories (both APIs walk them, with every option)
+        files = sorted(os.listdir(d))
+        for fn in r.sample(files, len(files) // 2):
+            sub = os.path.join(d, r.choice(['sub', 'sub/deeper']))
+            os.makedirs(sub, exist_ok=True)
+            os.rename(os.path.join(d, fn), os.path.join(sub, fn))
     return d, W
 
 
@@ -72,11 +79,15 @@ def main(tier):
                 focus = ''
                 if r.random() < 0.3 and W['workloads']:
                     w = r.choice(W['workloads'])
-                    focus = r.choice([w['name'], w['ns'] + '/' + w['name'], 'nosuch'])
+                    focus = r.choice([w['name'], w['ns'] + '/' + w['name'], 'nosuch', 'default/' + w['name'], 'default/' + w['name']])
                 args = ['list', '--dirpath', d, '-o', fmt_] + (['--exposure'] if exposure else []) + (['--focusworkload', focus] if focus else []) + flags
                 lib = {'id': 'l', 'cmd': 'list', 'dir': d, 'format': fmt_, 'exposure': exposure, 'focus': focus, 'stop': stop, 'want_out': True}
             else:
                 d2, _ = make_dir(h, r, 'b%d' % i, r.choice(['clean', 'clean', 'severe']))
+                if r.random() < 0.2:
+                    d2 = r.choice([d, d + '/', d + '/.'])      # a directory compared with itself (also when it cannot be analysed)
+                    if r.random() < 0.3:
+                        d = d2 = os.path.join(h.tmp, 'missing%d' % i)
                 fmt_ = r.choice(DIFF_FORMATS + ['json'])
                 args = ['diff', '--dir1', d, '--dir2', d2, '-o', fmt_] + flags
                 lib = {'id': 'd', 'cmd': 'diff', 'dir': d, 'dir2': d2, 'format': fmt_, 'stop': stop, 'want_out': True}
@@ -92,7 +103,7 @@ def main(tier):
             lib_out = '' if lib_err else o.get('out', '')
             payload = {'kind': 'cli', 'args': args, 'flavour': flavour, 'exit': pr.returncode, 'stdout': pr.stdout[-3000:], 'stderr': pr.stderr[-800:],
                        'library': {'outcome': o['outcome'], 'err': o.get('err'), 'out_err': o.get('out_err'), 'out': lib_out[-3000:]},
-                       'dir_listing': sorted(os.listdir(d))[:50]}
+                       'dir_listing': (sorted(os.path.relpath(os.path.join(dp, f), d) for dp, _, fs in os.walk(d) for f in fs)[:60] if os.path.isdir(d) else None)}
             if pr.returncode == 2 or 'panic:' in pr.stderr:
                 run.report(None, 'crash-%d' % i, payload, 'the binary crashed')
                 continue
